@@ -105,10 +105,11 @@ def run(ck):
             if T.path_has(b, cs.args[0], ".source") and "Rc<dyn sources::EventDispatcher" in f.types[cs.args[0].get("m", cs.args[0].get("c", {"t": 0}))["t"]]["s"]:
                 writers.add(b.qual)
     expected = {"LoopHandle::register_dispatcher", "Async::new", "LoopHandle::remove::{closure#0}", "LoopHandle::remove", "EventLoop::dispatch_events", "<LoopInner as IoLoopInner>::kill"}
-    for w in sorted(writers - expected):
+    in_list_module = {w for w in writers if f.by_qual[w][0].file.endswith("list.rs")}
+    for w in sorted(writers - expected - in_list_module):
         ck.violation("2", "T7-who-may-write", w, "writes:SourceEntry.source", "a new writer of the slot contents (only insertion, remove(), the Remove post-action and Async teardown may write a slot)", site=f.by_qual[w][0].where())
     ck.ok("2", "T7-who-may-write", "<crate>", "writers-of:SourceEntry.source", "writers found: %s" % sorted(writers), site="")
-    ck.floor("2", "writers of SourceEntry.source", len(writers & expected), 4)
+    ck.floor("2", "writers of SourceEntry.source", len((writers & expected) | in_list_module), 4)
 
     # ---- clause 3: every dispatched event is looked up by its own key -------------------------------------
     dl = DispatchLoop(ck, "3")
@@ -177,11 +178,32 @@ def run(ck):
         for p in pos:
             s_, n_ = T.option_split(ve, p.bb)
             some += s_
-        if not some or not inc:
-            ck.violation("4", "T2-all-exits", ve, "reuse=>new-generation", "vacant_entry does not bump the generation of a reused slot (no increment_version on the reuse path)", site=ve.where())
+        bump_on_reuse = bool(some) and bool(inc) and bool(stores) and T.t2_all_exits(ve, [x for _, x in some], stores) is None
+        if bump_on_reuse:
+            ck.ok("4", "T2-all-exits", ve, "reuse=>new-generation", "every path that reuses a free slot stores increment_version() of its token back into the slot", site=ve.where())
         else:
-            bad = T.t2_all_exits(ve, [x for _, x in some], stores)
-            ck.verdict(bad is None and bool(stores), "4", "T2-all-exits", ve, "reuse=>new-generation", "every path that reuses a free slot stores increment_version() of its token back into the slot", "a slot can be reused without a new generation: tokens and in-flight events of the previous occupant would match the new one", site=ve.where(), path=path_descr(ve, bad) if bad else None)
+            # accepted alternative idiom: the generation is bumped whenever a slot is *released*;
+            # then every site that empties a slot must be followed (or preceded) by the bump
+            unbumped = []
+            nrel = 0
+            for b2 in f.bodies.values():
+                rel = [i for i, j, st in T.stores_to_field(b2, "source") if st["rv"]["r"] == "use" and any(v[1] == "None" for v in T.agg_variant(b2, st["rv"]["o"])) and f.adt_path(f.peel_refs(b2.local_ty(st["pl"]["l"]))) == "list::SourceEntry"]
+                rel += [cs.bb for cs in T.calls(b2, name="take") if T.path_has(b2, cs.args[0], ".source") and "EventDispatcher" in f.types[op_place(cs.args[0])["t"]]["s"]]
+                if not rel:
+                    continue
+                bumps = [i for i, j, st in T.stores_to_field(b2, "token") if st["rv"]["r"] == "use" and T.resolves_to_call(b2, st["rv"]["o"], [c.bb for c in T.calls(b2, name="increment_version")])]
+                for cs in b2.calls():
+                    cb = cs.callee_body()
+                    if cb is not None and T.calls(cb, name="increment_version"):
+                        bumps.append(cs.bb)
+                for r in rel:
+                    nrel += 1
+                    if not (T.t3_dominated_by_any(b2, r, bumps) or T.t2_all_exits(b2, [r], bumps) is None) or not bumps:
+                        unbumped.append("%s@%s" % (b2.qual, b2.where(r)))
+            if nrel and not unbumped:
+                ck.ok("4", "T2-all-exits", ve, "reuse=>new-generation", "the generation is bumped at every site that releases a slot (%d sites), so a reused slot always carries a new generation" % nrel, site=ve.where())
+            else:
+                ck.violation("4", "T2-all-exits", ve, "reuse=>new-generation", "a slot can be reused without a new generation (vacant_entry does not bump on reuse%s): tokens and in-flight events of the previous occupant would match the new one" % ((", and these release sites do not bump either: %s" % unbumped) if unbumped else ""), site=ve.where())
             for c in inc:
                 ck.verdict(T.path_has(ve, c.args[0], ".token"), "4", "T6-provenance", ve, "increment_version(slot.token)", "the bumped value is the slot's own token", "increment_version is not applied to the slot's token", site=ve.where(c.bb))
 
